@@ -137,6 +137,16 @@ def run(prop, tier, extra=None):
     xtraces, xcounts = exhaustive_sched.gen_traces(quick_x + (more_x if tier == "thorough" else []))
     traces += xtraces
     rep.extra["model_initial_states_run_in_real_code"] = xcounts
+    if prop != "C08":
+        # random VALID configurations through run_simulator with the real generator (float RAM sizes, tick rates up to 100000, sub-GB and
+        # 1-cpu pools), observed sparsely: the contracts of this property on the policy it is about (C08 runs these for all policies, below)
+        from . import driver_sim
+        real = [p for p in POLICIES[prop] if p != "starter"]
+        extra_tr = driver_sim.gen_traces(NTRACES[tier] // 3, common.seed() + 810 + int(prop[1:]), frac_uncontended=0.0, policies=real)
+        for tr in extra_tr:
+            for e in tr:
+                e["tid"] += 2 * 10**6
+        traces += extra_tr
     if prop == "C18":
         # more than a thousand pipelines known to one overbook scheduler, a few of them killed again and again while a flood of tiny ones arrives
         traces += driver_sched.gen_special("flood", 8 if tier == "quick" else 64, common.seed() + 1818, 3 * 10**6)
